@@ -102,6 +102,16 @@ example : CacheSound (K := ℚ) [(.bin (.var "x") .plus (.number 0), .var "x")] 
   obtain ⟨rfl, rfl⟩ := h
   exact id_addZeroR ratLaws _ (by decide)
 
+/-- The memo table ignores the limit, so the result depends on what was visited before: `%x + 0` simplifies to
+`%x` from an empty table, but a visit with limit 0 leaves the entry `%x + 0 ↦ %x + 0`, and from that table the same
+call (limit 10) returns `%x + 0`.  (Both results are sound; `C12_simplify_sound_partial` covers every such table.) -/
+example :
+    let e : Expr ℚ := .bin (.var "x") .plus (.number 0)
+    (simplify 10 e { cache := [], pool := [] }).1 = .var "x" ∧
+    (simplify 0 e { cache := [], pool := [] }).2.1.cache = [(e, e)] ∧
+    (simplify 10 e { cache := [(e, e)], pool := [] }).1 = e := by
+  refine ⟨by rfl, by rfl, by rfl⟩
+
 /-- **The unrestricted value statement is false** (known finding C12/zero-pow-variable-exponent): `0^%x`
 simplifies to `0`, but at `%x = 0` it is defined and evaluates to `0^0 = 1`. -/
 theorem C12_value_full_counterexample :
